@@ -382,6 +382,8 @@ static json gen_opts(Rng &r, const SchemaGen &g, int depth)
 			o["vcb"] = 1;
 		if (fl)
 			o["fl"] = fl;
+		if (g.decl_comments && o["t"] != "func" && r.chance(1, 5))
+			o["cm"] = "declared note " + std::to_string(r.below(100));
 		opts.push_back(o);
 	}
 	if (g.include && (depth == 0 || r.chance(1, 2))) {
